@@ -11,6 +11,7 @@ import (
 	"go/token"
 	"go/types"
 	"os"
+	"regexp"
 	"sort"
 	"strings"
 
@@ -43,10 +44,19 @@ type Program struct {
 	Funcs []*ssa.Function
 	// Anchor resolution failures (collected, reported by the runner).
 	Unresolved []string
+	// Renames: functions of the reference tree that no longer exist under their name but have exactly one
+	// new function with the same package, receiver and signature: the new function answers to the old name.
+	renamed     map[*ssa.Function]string
+	RenameNotes []string
 	storeCache map[*ssa.Function]map[string]bool
 }
 
 func loadProgram(repo, goarch string) (*Program, error) {
+	// the alias tables belong to the program being loaded (programs are analysed one after the other)
+	typeAlias = map[*types.TypeName]string{}
+	memberAlias = map[ssa.Member]string{}
+	fieldAlias = map[*types.Var]string{}
+	varAlias = map[ssa.Value]string{}
 	env := append(os.Environ(),
 		"GOFLAGS=-mod=mod", "GOWORK=off", "GOPROXY=off", "GOSUMDB=off", "GOTOOLCHAIN=local",
 		"GOOS=linux", "GOARCH="+goarch, "CGO_ENABLED=0")
@@ -128,8 +138,198 @@ func loadProgram(repo, goarch string) (*Program, error) {
 			}
 		}
 	}
+	p.resolveTypeRenames()
+	p.resolveMemberRenames()
+	p.resolveRenames()
+	p.resolveFieldRenames()
+	p.resolveParamRenames()
 	sort.Slice(p.Funcs, func(i, j int) bool { return p.FuncName(p.Funcs[i]) < p.FuncName(p.Funcs[j]) })
 	return p, nil
+}
+
+// structFields enumerates the fields of the library's named struct types as "Type.field" ("pkg.Type.field"
+// outside the main package) with their type strings.
+func (p *Program) structFields(visit func(key string, typ string, v *types.Var)) {
+	for _, path := range libPatterns {
+		pk := p.Pkgs[path]
+		sc := pk.Types.Scope()
+		for _, name := range sc.Names() {
+			tn, ok := sc.Lookup(name).(*types.TypeName)
+			if !ok {
+				continue
+			}
+			st, ok := tn.Type().Underlying().(*types.Struct)
+			if !ok {
+				continue
+			}
+			prefix := ""
+			if path != modPath {
+				prefix = pk.Name + "."
+			}
+			for i := 0; i < st.NumFields(); i++ {
+				visit(prefix+typeNameOf(tn)+"."+st.Field(i).Name(), refTypeString(st.Field(i).Type()), st.Field(i))
+			}
+		}
+	}
+}
+
+// resolveFieldRenames: a field of the reference tree that is gone and a new field of the same struct with the
+// same type, unique in both directions, are the same field under a new name.
+func (p *Program) resolveFieldRenames() {
+	present := map[string]bool{}
+	type fr struct {
+		key, typ string
+		v        *types.Var
+	}
+	var fresh []fr
+	p.structFields(func(key, typ string, v *types.Var) {
+		present[key] = true
+		if _, ok := knownFields[key]; !ok {
+			fresh = append(fresh, fr{key, typ, v})
+		}
+	})
+	if len(fresh) == 0 {
+		return
+	}
+	owner := func(key string) string { return key[:strings.LastIndex(key, ".")] }
+	gone := map[string][]string{} // owner|type → old keys
+	for key, typ := range knownFields {
+		if !present[key] && present != nil {
+			gone[owner(key)+"|"+typ] = append(gone[owner(key)+"|"+typ], key)
+		}
+	}
+	cand := map[string][]fr{}
+	for _, f := range fresh {
+		k := owner(f.key) + "|" + f.typ
+		cand[k] = append(cand[k], f)
+	}
+	for k, fs := range cand {
+		if olds := gone[k]; len(fs) == 1 && len(olds) == 1 {
+			old := olds[0]
+			fieldAlias[fs[0].v] = old[strings.LastIndex(old, ".")+1:]
+			p.RenameNotes = append(p.RenameNotes, fmt.Sprintf("field %s of the reference tree is gone; %s has the same struct and type and is analysed in its place", old, fs[0].key))
+		}
+	}
+	sort.Strings(p.RenameNotes)
+}
+
+// varList renders parameters (or captured variables) as "name|type".
+func varList(vs []ssa.Value) []string {
+	var out []string
+	for _, v := range vs {
+		out = append(out, v.Name()+"|"+refTypeString(v.Type()))
+	}
+	return out
+}
+
+func paramsOf(fn *ssa.Function) (ps, fvs []ssa.Value) {
+	for _, x := range fn.Params {
+		ps = append(ps, x)
+	}
+	for _, x := range fn.FreeVars {
+		fvs = append(fvs, x)
+	}
+	return
+}
+
+// resolveParamRenames: a function of the reference tree whose parameter (captured variable) list still has the
+// same length and the same types position by position keeps the reference names for them.
+func (p *Program) resolveParamRenames() {
+	for _, fn := range p.Funcs {
+		name := p.FuncName(fn)
+		ps, fvs := paramsOf(fn)
+		for _, pair := range []struct {
+			now []ssa.Value
+			ref []string
+		}{{ps, knownParams[name]}, {fvs, knownFreeVars[name]}} {
+			now := varList(pair.now)
+			if len(now) != len(pair.ref) || len(now) == 0 {
+				continue
+			}
+			same := true
+			for i := range now {
+				if now[i][strings.Index(now[i], "|"):] != pair.ref[i][strings.Index(pair.ref[i], "|"):] {
+					same = false
+				}
+			}
+			if !same {
+				continue
+			}
+			for i := range now {
+				old := pair.ref[i][:strings.Index(pair.ref[i], "|")]
+				if old != pair.now[i].Name() {
+					varAlias[pair.now[i]] = old
+					p.RenameNotes = append(p.RenameNotes, fmt.Sprintf("variable %s of %s is called %s in the reference tree (same position and type)", pair.now[i].Name(), name, old))
+				}
+			}
+		}
+	}
+	sort.Strings(p.RenameNotes)
+}
+
+// sigKey renders package, receiver and parameter/result types of a function (no names).
+func (p *Program) sigKey(fn *ssa.Function) string {
+	s := ""
+	if fn.Pkg != nil {
+		s = fn.Pkg.Pkg.Name() + "|"
+	}
+	if recv := fn.Signature.Recv(); recv != nil {
+		s += refTypeString(recv.Type())
+	}
+	s += "|"
+	for i := 0; i < fn.Signature.Params().Len(); i++ {
+		s += refTypeString(fn.Signature.Params().At(i).Type()) + ","
+	}
+	if fn.Signature.Variadic() {
+		s += "..."
+	}
+	s += "|"
+	for i := 0; i < fn.Signature.Results().Len(); i++ {
+		s += refTypeString(fn.Signature.Results().At(i).Type()) + ","
+	}
+	return s
+}
+
+// resolveRenames maps a top-level function that is new w.r.t. the reference tree to the name of a reference
+// function that is gone, when the match by package, receiver and signature is unique in both directions.
+// A rename of a helper is behaviour-preserving; without this every rule anchored at the old name would be
+// undecided. A wrong match cannot hide anything: the rules of the old name are then applied to the new function.
+func (p *Program) resolveRenames() {
+	p.renamed = map[*ssa.Function]string{}
+	present := map[string]bool{}
+	var fresh []*ssa.Function
+	for _, f := range p.Funcs {
+		if f.Parent() != nil {
+			continue
+		}
+		n := p.FuncName(f)
+		present[n] = true
+		if !knownFuncs[n] {
+			fresh = append(fresh, f)
+		}
+	}
+	if len(fresh) == 0 {
+		return
+	}
+	bySig := map[string][]string{}
+	for name, sig := range knownSigs {
+		if !present[name] {
+			bySig[sig] = append(bySig[sig], name)
+		}
+	}
+	freshBySig := map[string][]*ssa.Function{}
+	for _, f := range fresh {
+		k := p.sigKey(f)
+		freshBySig[k] = append(freshBySig[k], f)
+	}
+	for sig, fs := range freshBySig {
+		if olds := bySig[sig]; len(fs) == 1 && len(olds) == 1 {
+			now := p.FuncName(fs[0])
+			p.renamed[fs[0]] = olds[0]
+			p.RenameNotes = append(p.RenameNotes, fmt.Sprintf("function %s of the reference tree is gone; %s (%s) has the same receiver and signature and is analysed in its place", olds[0], now, p.FuncPos(fs[0])))
+		}
+	}
+	sort.Strings(p.RenameNotes)
 }
 
 // isLib reports whether fn belongs to one of the analysed library packages.
@@ -153,6 +353,9 @@ func (p *Program) isLib(fn *ssa.Function) bool {
 func (p *Program) FuncName(fn *ssa.Function) string {
 	if fn == nil {
 		return "<nil>"
+	}
+	if n, ok := p.renamed[fn]; ok {
+		return n
 	}
 	if fn.Parent() != nil {
 		// anonymous: parent$N
@@ -183,9 +386,218 @@ func typeShort(t types.Type) string {
 		break
 	}
 	if n, ok := t.(*types.Named); ok {
-		return n.Obj().Name()
+		return typeNameOf(n.Obj())
 	}
 	return t.String()
+}
+
+// typeAlias: named types renamed w.r.t. the reference tree answer to their old name (see resolveTypeRenames).
+var typeAlias = map[*types.TypeName]string{}
+
+func typeNameOf(o *types.TypeName) string {
+	if n, ok := typeAlias[o]; ok {
+		return n
+	}
+	return o.Name()
+}
+
+// memberAlias: package-level variables and constants of the main package renamed w.r.t. the reference tree.
+var memberAlias = map[ssa.Member]string{}
+
+func memberName(m ssa.Member) string {
+	if n, ok := memberAlias[m]; ok {
+		return n
+	}
+	return m.Name()
+}
+
+// member looks a package-level member of the main package up by its reference name.
+func (p *Program) member(name string) ssa.Member {
+	if m, ok := p.Main.Members[name]; ok {
+		if _, aliased := memberAlias[m]; !aliased {
+			return m
+		}
+	}
+	for m, old := range memberAlias {
+		if old == name {
+			return m
+		}
+	}
+	return nil
+}
+
+// mainMembers enumerates the variables and constants of the main package: kind|type[|value].
+func (p *Program) mainMembers(visit func(name, desc string, m ssa.Member)) {
+	var names []string
+	for n := range p.Main.Members {
+		names = append(names, n)
+	}
+	sort.Strings(names)
+	for _, n := range names {
+		switch m := p.Main.Members[n].(type) {
+		case *ssa.Global:
+			if !strings.Contains(n, "$") && n != "_" {
+				visit(n, "var|"+refTypeString(m.Type()), m)
+			}
+		case *ssa.NamedConst:
+			if n != "_" {
+				visit(n, "const|"+refTypeString(m.Type())+"|"+m.Value.Value.ExactString(), m)
+			}
+		}
+	}
+}
+
+// resolveMemberRenames: a variable (constant) of the reference tree that is gone and a new one of the same type
+// (and value), unique in both directions, are the same member under a new name.
+func (p *Program) resolveMemberRenames() {
+	present := map[string]bool{}
+	type mr struct {
+		name, desc string
+		m          ssa.Member
+	}
+	var fresh []mr
+	p.mainMembers(func(name, desc string, m ssa.Member) {
+		present[name] = true
+		if _, ok := knownMembers[name]; !ok {
+			fresh = append(fresh, mr{name, desc, m})
+		}
+	})
+	if len(fresh) == 0 {
+		return
+	}
+	gone := map[string][]string{}
+	for name, desc := range knownMembers {
+		if !present[name] {
+			gone[desc] = append(gone[desc], name)
+		}
+	}
+	cand := map[string][]mr{}
+	for _, f := range fresh {
+		cand[f.desc] = append(cand[f.desc], f)
+	}
+	for desc, fs := range cand {
+		if olds := gone[desc]; len(fs) == 1 && len(olds) == 1 {
+			memberAlias[fs[0].m] = olds[0]
+			p.RenameNotes = append(p.RenameNotes, fmt.Sprintf("package-level %s of the reference tree is gone; %s has the same type%s and is analysed in its place", olds[0], fs[0].name, map[bool]string{true: " and value"}[strings.HasPrefix(desc, "const")]))
+		}
+	}
+}
+
+// refTypeString renders a type with package names as qualifiers and renamed library types under their
+// reference names.
+func refTypeString(t types.Type) string {
+	s := types.TypeString(t, func(p *types.Package) string { return p.Name() })
+	for o, old := range typeAlias {
+		if strings.Contains(s, o.Name()) {
+			re := regexp.MustCompile(`\b` + regexp.QuoteMeta(o.Pkg().Name()+"."+o.Name()) + `\b`)
+			s = re.ReplaceAllString(s, o.Pkg().Name()+"."+old)
+		}
+	}
+	return s
+}
+
+// lookupType finds a package-level type by its reference name.
+func lookupType(pk *packages.Package, name string) *types.TypeName {
+	sc := pk.Types.Scope()
+	if obj, ok := sc.Lookup(name).(*types.TypeName); ok {
+		if _, aliased := typeAlias[obj]; !aliased {
+			return obj
+		}
+	}
+	for _, n := range sc.Names() {
+		if obj, ok := sc.Lookup(n).(*types.TypeName); ok && typeAlias[obj] == name {
+			return obj
+		}
+	}
+	return nil
+}
+
+// libTypes enumerates the package-level named types of the library as "Type" / "pkg.Type" with the rendering
+// of their underlying type.
+func (p *Program) libTypes(visit func(key, underlying string, o *types.TypeName)) {
+	for _, path := range libPatterns {
+		pk := p.Pkgs[path]
+		sc := pk.Types.Scope()
+		for _, name := range sc.Names() {
+			tn, ok := sc.Lookup(name).(*types.TypeName)
+			if !ok || tn.IsAlias() {
+				continue
+			}
+			prefix := ""
+			if path != modPath {
+				prefix = pk.Name + "."
+			}
+			und := refTypeString(tn.Type().Underlying())
+			if st, ok := tn.Type().Underlying().(*types.Struct); ok {
+				// field names may be renamed together with the type: compare the field types in order
+				und = "struct{"
+				for i := 0; i < st.NumFields(); i++ {
+					und += refTypeString(st.Field(i).Type()) + "; "
+				}
+				und += "}"
+			}
+			visit(prefix+name, und, tn)
+		}
+	}
+}
+
+// resolveTypeRenames: a named type of the reference tree that is gone and a new named type of the same package
+// with the same underlying type, unique in both directions, are the same type under a new name.
+func (p *Program) resolveTypeRenames() {
+	for i := 0; i < 6; i++ {
+		if !p.resolveTypeRenamesOnce() {
+			break
+		}
+	}
+}
+
+func (p *Program) resolveTypeRenamesOnce() (progress bool) {
+	present := map[string]bool{}
+	type tr struct {
+		key, und string
+		o        *types.TypeName
+	}
+	var fresh []tr
+	p.libTypes(func(key, und string, o *types.TypeName) {
+		present[key] = true
+		if _, ok := knownTypes[key]; !ok {
+			if _, done := typeAlias[o]; !done {
+				fresh = append(fresh, tr{key, und, o})
+			}
+		}
+	})
+	if len(fresh) == 0 {
+		return false
+	}
+	taken := map[string]bool{}
+	for _, old := range typeAlias {
+		taken[old] = true
+	}
+	pkgOf := func(key string) string {
+		if i := strings.Index(key, "."); i >= 0 {
+			return key[:i]
+		}
+		return ""
+	}
+	gone := map[string][]string{}
+	for key, und := range knownTypes {
+		if !present[key] && !taken[key[strings.LastIndex(key, ".")+1:]] {
+			gone[pkgOf(key)+"|"+und] = append(gone[pkgOf(key)+"|"+und], key)
+		}
+	}
+	cand := map[string][]tr{}
+	for _, f := range fresh {
+		cand[pkgOf(f.key)+"|"+f.und] = append(cand[pkgOf(f.key)+"|"+f.und], f)
+	}
+	for k, fs := range cand {
+		if olds := gone[k]; len(fs) == 1 && len(olds) == 1 {
+			old := olds[0]
+			typeAlias[fs[0].o] = old[strings.LastIndex(old, ".")+1:]
+			progress = true
+			p.RenameNotes = append(p.RenameNotes, fmt.Sprintf("type %s of the reference tree is gone; %s has the same underlying type and is analysed in its place", old, fs[0].key))
+		}
+	}
+	return progress
 }
 
 // Func resolves a short name ("Conn.writeFrame", "readFrameHeader", "wsjson.read",
@@ -223,7 +635,7 @@ func (p *Program) NamedType(name string) *types.Named {
 	}
 	pk := p.Pkgs[pkgPath]
 	if pk != nil {
-		if obj, ok := pk.Types.Scope().Lookup(name).(*types.TypeName); ok {
+		if obj := lookupType(pk, name); obj != nil {
 			if n, ok := obj.Type().(*types.Named); ok {
 				return n
 			}
@@ -260,7 +672,7 @@ func (p *Program) FieldOpt(name string) *types.Var {
 		} else if path != modPath {
 			continue
 		}
-		if obj, ok := pk.Types.Scope().Lookup(lookup).(*types.TypeName); ok {
+		if obj := lookupType(pk, lookup); obj != nil {
 			named, _ = obj.Type().(*types.Named)
 		}
 	}
@@ -272,7 +684,7 @@ func (p *Program) FieldOpt(name string) *types.Var {
 		return nil
 	}
 	for k := 0; k < st.NumFields(); k++ {
-		if st.Field(k).Name() == fn {
+		if fieldName(st.Field(k)) == fn {
 			return st.Field(k)
 		}
 	}
@@ -281,7 +693,7 @@ func (p *Program) FieldOpt(name string) *types.Var {
 
 // Global resolves a package-level variable of the main package.
 func (p *Program) Global(name string) *ssa.Global {
-	if g, ok := p.Main.Members[name].(*ssa.Global); ok {
+	if g, ok := p.member(name).(*ssa.Global); ok {
 		return g
 	}
 	p.Unresolved = append(p.Unresolved, "global "+name)
@@ -290,7 +702,7 @@ func (p *Program) Global(name string) *ssa.Global {
 
 // ConstInt resolves a package-level integer constant's value.
 func (p *Program) ConstInt(name string) (int64, bool) {
-	if c, ok := p.Main.Members[name].(*ssa.NamedConst); ok {
+	if c, ok := p.member(name).(*ssa.NamedConst); ok {
 		if v, ok := constInt64(c.Value.Value); ok {
 			return v, true
 		}
